@@ -48,7 +48,8 @@ def explore_entry(args):
     from engines.mirsym.interp import Interp
     it = Interp(prog, max_steps=opts.get("max_steps", 3000000), max_paths=opts.get("max_paths", 100000))
     full = "happylock::verif_harness::" + entry
-    rng = random.Random(opts.get("seed", 0) * 1000003 + hash(entry) % 1000003)
+    import zlib
+    rng = random.Random(opts.get("seed", 0) * 1000003 + zlib.crc32(entry.encode()) % 1000003)
     sample_p = opts.get("sample_p", 0.05)
     res = {"entry": entry, "paths": [], "outcomes": {}, "violations": [], "samples": [], "marks": {}, "error": None}
     t0 = time.time()
